@@ -194,6 +194,17 @@ func literalStores(f *ssa.Function, typeSuffix string) map[string][]string {
 	allInstrs(f, func(in ssa.Instruction) {
 		switch x := in.(type) {
 		case *ssa.Store:
+			// a field written directly into an element of a slice (dst[i].F = v) is the same construction as storing a literal
+			if fa, ok := x.Addr.(*ssa.FieldAddr); ok {
+				if ia, ok := fa.X.(*ssa.IndexAddr); ok && hasSuffixType(derefType(fa.X.Type()), typeSuffix) && (rootedInLocal(ia.X) || holdsFreshMake(ia.X)) {
+					k := fieldName(fa.X.Type(), fa.Field)
+					if acc[k] == nil {
+						acc[k] = map[string]bool{}
+					}
+					acc[k][exprStr(x.Val, shapeOpts)] = true
+					return
+				}
+			}
 			if localCell(x.Addr) != nil && x.Addr == ssa.Value(localCell(x.Addr)) {
 				return // initialisation of the literal itself
 			}
